@@ -4,8 +4,8 @@ coordinate is checked against the integer it must belong to (a mismatch is made 
 canonical text, so the comparison with the model fails)."""
 import json
 
-MODES = ["bus", "rail", "transferable"]
-MODE_NAMES = ["Bus", "Rail", "Transferable"]
+MODES = ["tram", "tramTrain", "transferable"]
+MODE_NAMES = ["Tram/LRT", "Tram Train", "Transferable"]
 ROUTE_FIELDS = ["departureTime", "arrivalTime", "totalTravelTime", "totalDistance", "totalInVehicleTime",
                 "totalInVehicleDistance", "totalNonTransitTravelTime", "totalNonTransitDistance",
                 "numberOfBoardings", "numberOfTransfers", "transferWalkingTime", "transferWalkingDistance",
